@@ -13,3 +13,12 @@ func (p *Provider) VerifKeyCount() int { return len(p.keys) }
 
 // VerifForget drops everything the fetcher holds, as a restart of the client process does.
 func (f *Fetcher) VerifForget() { f.data = Data{} }
+
+// VerifRestart puts the provider into the state of a freshly started server process: the keys
+// it held are gone (nothing of them is durable), a new first key is generated.
+func (p *Provider) VerifRestart() {
+	q := NewProvider()
+	p.mu.Lock()
+	defer p.mu.Unlock()
+	p.keys, p.currentID, p.generatedAt = q.keys, q.currentID, q.generatedAt
+}
